@@ -156,6 +156,9 @@ def render_def(prog, d):
             args.append("cluster=%r" % d["cluster"])
         if d.get("version") is not None:
             args.append("version=%r" % d["version"])
+        if d.get("declared"):
+            # dependencies declared by (dotted) name: calls to them are legal although the body reaches them dynamically
+            args.append("dependencies=[%s]" % ", ".join(repr(_ref(prog, d["mod"], n)) for n in d["declared"]))
         lines.append("@mf(%s)\n" % ", ".join(args) if args else "@mf\n")
     params = "x"
     if d.get("pdef") is not None:
@@ -178,13 +181,16 @@ def render_def(prog, d):
 def fix_order(prog, defs):
     """a function whose parameter default names another function is defined after that function (same module or not)"""
     defs = list(defs)
-    for _ in range(len(defs)):
+    for _ in range(len(defs) * len(defs) + 1):
         moved = False
         names = [d["name"] for d in defs]
         for i, d in enumerate(defs):
-            dep = d.get("fdef") if d["k"] == "fn" else (d.get("target") if d["k"] == "query" else None)
-            if dep and names.index(dep) > i:
-                defs.insert(names.index(dep), defs.pop(i))
+            deps = ([d.get("fdef")] if d.get("fdef") else []) + list(d.get("declared") or []) if d["k"] == "fn" else \
+                ([d.get("target")] if d["k"] == "query" else [])
+            late = [dep for dep in deps if dep in names and names.index(dep) > i]
+            if late:
+                # move behind the last of the definitions it needs at definition time
+                defs.insert(max(names.index(dep) for dep in late), defs.pop(i))
                 moved = True
                 break
         if not moved:
@@ -227,6 +233,7 @@ def edges(prog, name, include_hidden=True):
     cs, vs = [], []
     if d.get("fdef"):
         cs.append(d["fdef"])
+    cs += list(d.get("declared") or [])
     for e in exprs_of(d):
         if e["e"] == "call" or (e["e"] == "hidden" and include_hidden):
             cs.append(e["f"])
@@ -442,7 +449,7 @@ def apply_edit(prog, edit, tag):
 # ------------------------------------------------------------------------------------------
 
 def program_strategy(max_fns=6, two_modules=True, allow_hidden=True, allow_explicit=True, allow_cluster=True,
-                     str_sets=True, allow_hidden_plain=False, allow_alias=True, explicit_f0=False, value_heavy=False, allow_fdef=False, allow_dictset=False, allow_init=False, allow_query=False, allow_tuplist=False):
+                     str_sets=True, allow_hidden_plain=False, allow_alias=True, explicit_f0=False, value_heavy=False, allow_fdef=False, allow_dictset=False, allow_init=False, allow_query=False, allow_tuplist=False, allow_declared=False):
     from hypothesis import strategies as st
 
     small = st.integers(0, 9)
@@ -539,8 +546,15 @@ def program_strategy(max_fns=6, two_modules=True, allow_hidden=True, allow_expli
                 # hidden calls only to memento functions: a dynamically dispatched *plain* helper can be neither
                 # detected nor refused by the library (known finding hidden-plain-callee)
                 tgt_memento = fmem[tgt[:-2] if tgt.endswith("_r") else tgt]
-                if allow_hidden and (tgt_memento or allow_hidden_plain) and draw(st.integers(0, 4)) == 0:
+                # (a declared dependency must exist when the decorator runs: same module, and only "higher-numbered"
+                # functions are declared, so that an order exists)
+                declare = allow_declared and memento and not tgt.endswith("_r") and fmods[tgt] == fmods[n] \
+                    and int(tgt[1:]) > int(n[1:]) and tgt not in ffdef and draw(st.integers(0, 1)) == 0
+                if allow_hidden and (tgt_memento or allow_hidden_plain or declare) and draw(st.integers(0, 4)) == 0:
                     call = {"e": "hidden", "f": tgt, "via": draw(st.sampled_from(["globals", "sysmod", "sysmod", "clone"]))}
+                    if declare and tgt not in d.setdefault("declared", []):
+                        # the dynamic callee is declared as a dependency (then it may also be a plain helper)
+                        d["declared"].append(tgt)
                 else:
                     call = {"e": "call", "f": tgt}
                     form = draw(st.integers(0, 7))
@@ -589,6 +603,8 @@ def features(prog):
             f.add("explicit-version")
         if d.get("fdef"):
             f.add("fn-default")
+        if d.get("declared"):
+            f.add("declared-dependency")
         if not d["memento"]:
             f.add("plain-helper")
         for e in exprs_of(d):
@@ -625,7 +641,7 @@ def hidden_plain_reachable(prog, name):
         d = find(prog, n)
         if d["k"] == "fn":
             for e in exprs_of(d):
-                if e["e"] == "hidden" and not resolve_fn(prog, e["f"])["memento"]:
+                if e["e"] == "hidden" and not resolve_fn(prog, e["f"])["memento"] and e["f"] not in (d.get("declared") or []):
                     return True
     return False
 
